@@ -83,13 +83,28 @@ def gen_case(rng, idx, want_accept):
                 plan[k] = ('f2.conf', items[k])
     # error injection on one token of one item
     kind = None
+    failat = 0
     if not want_accept:
         fi = rng.randrange(n)
         it = plan[fi][1]
         ti = rng.randrange(len(it))
-        kind = rng.choice(['unknown-name', 'bad-value', 'wrong-token', 'wrong-token', 'truncate'])
+        kind = rng.choice(['unknown-name', 'bad-value', 'wrong-token', 'wrong-token', 'truncate', 'callback'])
+        if kind == 'callback':
+            # no injected token: instead some options / sections carry a validation callback and its k-th invocation refuses
+            def mark(ds):
+                for d in ds:
+                    if d.typ == 'sec':
+                        if rng.random() < 0.6:
+                            d.cbs = 'v'
+                        if not (d.flags & core.F_KEYSTRVAL):
+                            mark(d.sub or [])
+                    elif d.typ in ('int', 'float', 'bool', 'str') and not (d.is_list and d.default) and rng.random() < 0.5:
+                        d.cbs = 'v'
+            mark(decls[:-1])
+            failat = rng.randint(1, 6)
         if kind == 'unknown-name':
-            it[ti] = ['name', 'nosuch_option', 'nosuch_option']
+            nm = rng.choice(['nosuch_option', 'nosuch_option', 'nosuch|depth', 'nosuch=1|x', 'nosuch|', '|nosuch', 'no such'])
+            it[ti] = ['name', nm if G.word_ok(nm) else '"%s"' % nm, nm]
         elif kind == 'bad-value':
             sp, dec = rng.choice([('zz!', 'zz!'), ('"not a number"', 'not a number'), ("'1.2.3'", '1.2.3'), ('12abc', '12abc'), ('0x-5', '0x-5'), ('0b-1', '0b-1'),
                                   ('0x0x1f', '0x0x1f'), ('"0x 5"', '0x 5'), ('"0x+5"', '0x+5'), ('0x', '0x'), ('08', '08'), ('""', ''), ('1e999', '1e999'),
@@ -98,6 +113,8 @@ def gen_case(rng, idx, want_accept):
         elif kind == 'wrong-token':
             p = rng.choice(['=', '+=', '{', '}', '(', ')', ','])
             it[ti] = [p, p, None]
+        elif kind == 'callback':
+            pass
         else:
             # premature end: cut the main file's last item
             last = max(k for k in range(n) if plan[k][0] == 'main') if any(p[0] == 'main' for p in plan) else None
@@ -107,7 +124,7 @@ def gen_case(rng, idx, want_accept):
             else:
                 cut = rng.randint(0, len(plan[last][1]) - 1)
                 del plan[last][1][cut:]
-    return {'decls': [d.to_json() for d in decls], 'plan': [[f, it] for f, it in plan], 'fancy': rng.random() < 0.85, 'kind': kind, 'seed': rng.getrandbits(32), 'dir': 'k%d' % idx}
+    return {'decls': [d.to_json() for d in decls], 'plan': [[f, it] for f, it in plan], 'fancy': rng.random() < 0.85, 'kind': kind, 'seed': rng.getrandbits(32), 'dir': 'k%d' % idx, 'failat': failat}
 
 
 def build(spec):
@@ -178,6 +195,8 @@ def script(spec):
     L.append('chdir %s' % hx(d))
     L += lines
     L.append('init 0 %d 0' % sid)
+    if spec.get('failat'):
+        L.append('failat %d' % spec['failat'])
     L.append('parse_buf 0 %s' % hx(files['main']))
     return '\n'.join(L)
 
@@ -189,15 +208,20 @@ def judge(spec, events, death):
     if death is not None:
         v.bad('crash:%s@%s' % (death['kind'], death['where']), 'main text %r: %s' % (files['main'][:200], death['text'][-400:]))
         return v
-    model = schema.new_root(decls[:-1] + [D('include', 'func', cbs='F')])
-    verdict, pos, it = model_lang.interpret(model, flat, 0)
-    if verdict == 'unspec':
-        v.skipped = True
-        return v
+    model = schema.new_root(decls[:-1] + [D('include', 'func', cbs='')])      # include is a plain call for the model (the file's tokens follow in the stream)
+    verdict, pos, it = model_lang.interpret(model, flat, 0, failat=spec.get('failat', 0))
     r = [e for e in events if e.get('ev') == 'r' and e.get('op') == 'parse_buf']
     diags = [(unhx(e['file']), e['line'], unhx(e['msg'])) for e in events if e.get('ev') == 'diag']
     if not r:
         v.bad('harness:short-log', 'no parse result')
+        return v
+    # first clause, independent of any model: a failed parse has delivered at least one diagnostic
+    if r[0]['rc'] != 0 and not diags:
+        why = it.why if verdict == 'reject' else verdict
+        v.bad('silent-reject:%s' % why, 'text rejected (rc=%s) without any diagnostic; text %r' % (r[0]['rc'], files['main'][:300]))
+        return v
+    if verdict == 'unspec':
+        v.skipped = True
         return v
     if verdict == 'accept':
         v.notes['accepted_cases'] = 1
